@@ -989,6 +989,24 @@ impl Enc {
         out
     }
 
+    pub fn any(&self, pred: &dyn Fn(&Enc) -> bool) -> bool {
+        if pred(self) {
+            return true;
+        }
+        match self {
+            Enc::Array(a, _) | Enc::ArrayIndef(a) => a.iter().any(|x| x.any(pred)),
+            Enc::Map(m, _) | Enc::MapIndef(m) => m.iter().any(|(k, v)| k.any(pred) || v.any(pred)),
+            Enc::Tag(_, _, i) => i.any(pred),
+            _ => false,
+        }
+    }
+
+    /// Tag 2/3 over an indefinite-length byte string: ciborium keeps this one as a tag but folds
+    /// the definite-length form into an integer.
+    pub fn has_bignum_over_indefinite(&self) -> bool {
+        self.any(&|e| matches!(e, Enc::Tag(2 | 3, _, inner) if matches!(**inner, Enc::BytesIndef(_))))
+    }
+
     pub fn has_bignum_form(&self) -> bool {
         self.item().has_bignum_tag()
     }
